@@ -13,6 +13,7 @@ from hypothesis import strategies as st
 from vf import core, pipedrive, rvdrive, rvtext, snap
 from vf.core import Violation
 from vf.gen import cachecfg, rvprog
+from vf.ref import frontend
 from vf.ref.cache import RefCache
 
 ID = "C11"
@@ -27,7 +28,9 @@ RULE = ("programs of C02 (loops smaller and larger than the cache, branches into
         "and loading P2, counters read 0/0/False, no valid block remains, fetches return P2's objects. non-trivial = >=1 "
         "I-cache hit and >=1 replacement, or a reload after the cache held >=1 block; distinct = hash(case)"
         ' A third of the program runs call every inspection function before every step: fetch counters, cycle counter a'
-        'nd fetch log must not move.')
+        'nd fetch log must not move.'
+        ' In five-stage mode the fetch log must equal the fetch sequence of the structural pipeline model (squashed fet'
+        'ches included).')
 ASSUMPTIONS = ["the fetch log is taken by an instance-level recording proxy around read_instruction installed by the harness"]
 B = rvprog.B
 
@@ -128,6 +131,18 @@ def check(case, stats):
         raise Violation("fetch-last-hit", case, f"last_hit={st_['last_hit']}, reference {last}")
     if mode == "single" and on.end != "fault" and len(log) != on.metrics["instructions"]:
         raise Violation("one-fetch-per-instruction", case, f"{len(log)} fetches for {on.metrics['instructions']} executed instructions")
+    if mode == "five" and on.end in ("done", "cap"):
+        # the fetches performed are those of the documented pipeline, squashed (wrong-path) ones included: one per cycle
+        # unless the front end is frozen by an interlock / a waiting ecall, redirected the cycle after a taken transfer
+        isa = rvdrive.ref_machine(case["prog"], case.get("regs"), case.get("mem"))
+        isa.run(on.steps + 1)
+        if isa.fault is None:
+            fe = frontend.simulate(case["prog"], isa.trace, max_cycles=on.steps if on.end == "cap" else 10 ** 6)
+            got = [a for a, _o, _h, _c in log]
+            if got != fe["fetches"]:
+                d = next((i for i, (x, y) in enumerate(zip(got, fe["fetches"])) if x != y), min(len(got), len(fe["fetches"])))
+                raise Violation("fetch-sequence", case, f"{len(got)} fetches, the documented pipeline performs {len(fe['fetches'])}; first difference at fetch #{d}: "
+                                f"{got[d:d + 4]} vs {fe['fetches'][d:d + 4]}")
     # penalties: total cycles = steps + penalties (data cache part measured from its own counters)
     dmiss = (int(on.dstats["accesses"]) - int(on.dstats["hits"])) if on.dstats else 0
     exp_cycles = on.steps - (1 if on.end == "fault" else 0) + ic["pen"] * (len(log) - hits) + (dc["pen"] * dmiss if dc else 0)
